@@ -43,7 +43,10 @@ def gen_config(rng, *, kinds=None, scheduler=None, loss_kinds=None, max_params=4
 def real_data(cfg):
     r = np.random.default_rng(cfg["real_seed"])
     n = cfg["N"] + (cfg.get("real_len_delta", 3) if cfg["sim_length_differs"] else 0)
-    return r.normal(size=(n, cfg["D"]))
+    rd = r.normal(size=(n, cfg["D"]))
+    for (i, j, v) in cfg.get("real_nonfinite", []):   # missing / overflowing observations
+        rd[i % n, j % cfg["D"]] = float(v)
+    return rd
 
 
 def build_samplers(cfg, ctor_seed_shift=0):
